@@ -327,6 +327,22 @@ def random_program(rnd):
     return forms
 
 
+def closure_loop_program(w, mutual):
+    """closures created in successive iterations of a TAIL loop capture that iteration's own parameters: each keeps its
+    own binding (reading it later, and assigning to it, is private to that closure)"""
+    call = [S("collect2" if mutual else "collect"), [S("-"), S("i"), 1], [S("cons"), [S("lambda"), [], [S("set!"), S("i"), [S("+"), S("i"), 10]], S("i")], S("acc")]]
+    e = w[2](call, None)
+    forms = list(P.PRELUDE)
+    forms.append([S("defun"), S("collect"), [S("i"), S("acc")], [S("if"), [S("<"), S("i"), 0], S("acc"), e]])
+    if mutual:
+        forms.append([S("defun"), S("collect2"), [S("i"), S("acc")], [S("collect"), S("i"), S("acc")]])
+    forms.append([S("set"), Q(S("cs")), GUARD([S("collect"), 2, []])])
+    call_all = [S("map"), Q(S("list")), [S("lambda"), [S("f")], [S("funcall"), S("f")]], S("cs")]
+    forms.append([S("probe"), Q(S("first")), GUARD(call_all)])
+    forms.append([S("probe"), Q(S("second")), GUARD(call_all)])
+    return forms
+
+
 def run(tier):
     V = Verdict("C01", tier)
     work = Work("C01")
@@ -354,6 +370,10 @@ def _run(V, work, tier):
                     progs_.append(("bind", bind_program(f, names, req, opt, tail, nargs, mode, via)))
     for _ in range(5000 if thorough else 700):
         progs_.append(("random", random_program(rnd)))
+    for w in P.WRAPPERS:
+        if w[1] in ("T", "N") and w[0] not in ("if-cond",):
+            for mutual in (False, True):
+                progs_.append(("closure-loop", closure_loop_program(w, mutual)))
     recs, drv = [], []
     for i, (kind, forms) in enumerate(progs_):
         recs.append(mach.prog_record(i, [forms], {}))
